@@ -58,6 +58,10 @@ def handle (st : DState) (line : String) : DState × String :=
     match ghXor arg with
     | some out => (st, out)
     | none => (st, "bad-op")
+  | "lz" :: "check" :: init :: evs =>
+    match lzCheck init evs with
+    | some out => (st, out)
+    | none => (st, "bad-op")
   | ["fp", "racy"] => (st, fpRacy)
   | ["ping"] => (st, "pong")
   | _ => (st, "bad-op")
